@@ -171,6 +171,34 @@ class Model:
             from .inline import split_webs
             self.webs_split = sum(split_webs(f.node) for f in self.all_functions(include_inlined=True))
 
+    def negated_twin(self, attr: str) -> Optional[str]:
+        """``attr`` names exactly one property in the repository, it returns ``not self.F``, and exactly one other property of
+        the same class returns ``self.F``: the name of that property (x.attr is then ``not x.twin`` for every receiver)"""
+        cache = self.__dict__.setdefault("_negated_twins", {})
+        if attr in cache:
+            return cache[attr]
+        res = None
+        props = self._property_index.get(attr, [])
+        if len(props) == 1 and not self._method_index.get(attr):
+            f = props[0]
+            body = body_without_docstring(f.node)
+            if len(body) == 1 and isinstance(body[0], ast.Return) and isinstance(body[0].value, ast.UnaryOp) and isinstance(body[0].value.op, ast.Not):
+                inner = body[0].value.operand
+                if isinstance(inner, ast.Attribute) and isinstance(inner.value, ast.Name) and inner.value.id == "self":
+                    twins = []
+                    for g in self.all_functions(include_inlined=True):
+                        if g.cls is f.cls and g.kind == "property" and g is not f:
+                            b2 = body_without_docstring(g.node)
+                            if len(b2) == 1 and isinstance(b2[0], ast.Return) and isinstance(b2[0].value, ast.Attribute) \
+                                    and isinstance(b2[0].value.value, ast.Name) and b2[0].value.value.id == "self" and b2[0].value.attr == inner.attr:
+                                twins.append(g.name)
+                    if inner.attr in [p.name for p in self.all_functions(include_inlined=True) if p.cls is f.cls and p.kind == "property"]:
+                        twins.append(inner.attr)        # 'return not self.other_property'
+                    if len(set(twins)) == 1 and len(self._property_index.get(twins[0], [])) == 1:
+                        res = twins[0]
+        cache[attr] = res
+        return res
+
     # ------------------------------------------------------------------ build
     def _add_module(self, rel: str, src: str) -> None:
         try:
